@@ -87,6 +87,10 @@ SpecStep(e) ==
                                    /\ UNCHANGED <<disks, headN, chain, loc, snapIdx, holeQ, size, open, mode,
                                                   rebuilding, dirty, rev, checkpoint, punch, preload, lm, stale, cleaner,
                                                   ref, usnap>>
+      [] e.ev = "CleanerIdle"   -> /\ Called("CleanerIdle", << >>) /\ res' = "ok" /\ out' = <<>>
+                                   /\ UNCHANGED <<disks, headN, chain, loc, snapIdx, holeQ, size, open, mode,
+                                                  rebuilding, dirty, rev, checkpoint, punch, preload, lm, stale, cleaner,
+                                                  ref, usnap>>
       [] e.ev = "Coalesce"      -> Coalesce(e.a.name)
       [] e.ev = "RemoveDisk"    -> RemoveDisk(e.a.name)
       [] e.ev = "Revert"        -> Revert(e.a.name)
